@@ -10,6 +10,7 @@ pub mod resolve;
 pub mod sortlex;
 pub mod metainherit;
 pub mod tokvals;
+pub mod tablekern;
 
 /// `std::env::var_os` stub: the dev-profile `log!` macro of the runtime consults
 /// `RUSTEMO_TRACE` on every call; tracing is not a subject of any property.
